@@ -19,6 +19,23 @@ SUBSETS = [[], ["INVOKE"], ["SHUTDOWN"], ["INVOKE", "SHUTDOWN"]]
 BOUND = None  # all event kinds except telemetry are bound (see scenario_common / traceprep)
 
 
+# the caller's trace header reaches the extensions verbatim, whatever its form: canonical, with further fields,
+# fields in another order, without a sampling decision, an opaque value, empty
+TRACE_FORMS = [
+    "Root=1-%(a)08x-%(b)024x;Parent=%(c)016x;Sampled=1",
+    "Root=1-%(a)08x-%(b)024x;Parent=%(c)016x;Sampled=1;Lineage=%(a)08x:0",
+    "Sampled=0;Parent=%(c)016x;Root=1-%(a)08x-%(b)024x",
+    "Self=1-%(a)08x-%(b)024x;Root=1-%(a)08x-%(b)024x;Parent=%(c)016x;Sampled=1",
+    "Root=1-%(a)08x-%(b)024x;Parent=%(c)016x",
+    "opaque-trace-%(a)d",
+    "",
+]
+
+
+def trace_header(i, k):
+    return TRACE_FORMS[i % len(TRACE_FORMS)] % {"a": k, "b": k * 7 + 1, "c": k * 13 + 5}
+
+
 def scenarios(ctx):
     rnd = random.Random(ctx.seed)
     out = []
@@ -48,7 +65,7 @@ def scenarios(ctx):
             hold = rnd.choice(parties) if vi % 2 == 0 else None
             for r in range(rounds):
                 k = s.ninv + 1
-                it = s.invoke(size=rnd.choice([0, 1, 7, 300]), seed=k, trace="Root=1-%08x-%024x;Parent=%016x;Sampled=1" % (k, k, k))
+                it = s.invoke(size=rnd.choice([0, 1, 7, 300]), seed=k, trace=trace_header(n + k, k))
                 s.wait(tags["rt"])
                 for w in listeners:
                     s.wait(tags[w])
